@@ -110,15 +110,24 @@ func (ds *Dataset) StartFullSyncWithLease(fullSyncID string) error {
 	ds.fullSyncID = fullSyncID
 	ds.fullSyncMu.Unlock()
 
-	return ds.RefreshFullSyncLease(fullSyncID)
+	return ds.refreshFullSyncLease(fullSyncID, true)
 }
 
 func (ds *Dataset) RefreshFullSyncLease(fullSyncID string) error {
+	return ds.refreshFullSyncLease(fullSyncID, false)
+}
+
+func (ds *Dataset) refreshFullSyncLease(fullSyncID string, starting bool) error {
 	ds.fullSyncMu.Lock()
 	defer ds.fullSyncMu.Unlock()
 	verifhook.Access(ds, "Dataset.fullSyncState", true)
 	if ds.fullSyncStarted {
 		if fullSyncID == ds.fullSyncID {
+			if ds.fullSyncLease == nil && !starting {
+				// the running fullsync was started without a lease (by a job). a request never attaches one to it:
+				// with a lease, a request carrying the end header could complete the job's fullsync
+				return nil
+			}
 			// cancel previous lease
 			if ds.fullSyncLease != nil && ds.fullSyncLease.cancel != nil {
 				ds.fullSyncLease.cancel()
